@@ -53,3 +53,11 @@ Theorem split_masked_high_part_refuted :
   split_ok [(0, Some 255); (8, None)] [0; 8] = true /\
   split_read (split_write 65537 [(0, Some 255); (8, None)]) [0; 8] = 65537.
 Proof. vm_compute. repeat split; reflexivity. Qed.
+
+Theorem bool_code_roundtrip : forall c, bool_code_ok c = true -> forall b, bool_code_read c (bool_code_write c b) = b.
+Proof.
+  intros [[wt wf] rc] H b. cbn in *. apply andb_prop in H. destruct H as [H1 H2]. destruct b; [exact H1|].
+  apply negb_true_iff in H2. exact H2.
+Qed.
+Theorem bool_code_swapped_refuted : bool_code_ok (2, 3, 3) = false /\ bool_code_read (2, 3, 3) (bool_code_write (2, 3, 3) true) = false.
+Proof. vm_compute. split; reflexivity. Qed.
